@@ -39,7 +39,7 @@ package store
 //@ func (s *Store) getPrimaryKeyData(blk types.Block, indexKey []byte) (k []byte, v []byte, err error)  property C01
 //@   requires SI(s)
 //@   requires ihit(Ein(s), Eblk(s), bytes(indexKey)) && keyof(blk) == Eblk(s)[ires(Ein(s), Eblk(s), bytes(indexKey))]
-//@   modifies s.index.$Ein
+//@   modifies s.index.$Ein, s.index.$pending
 //@   ensures @match err == nil && k != nil ==> Rin(s)[keyof(blk)] && ikey(Rkey(s)[keyof(blk)]) == bytes(indexKey) && bytes(v) == Rval(s)[keyof(blk)] && bytes(k) == bytes(indexKey)
 //@   ensures @match-unchanged err == nil && k != nil ==> Ein(s) == old(Ein(s))
 //@   ensures @nomatch err == nil && k == nil ==> !old(has(s, bytes(indexKey))) && !Ein(s)[bytes(indexKey)]
@@ -50,7 +50,7 @@ package store
 
 //@ func (s *Store) Get(key []byte) (value []byte, found bool, err error)  property C01
 //@   requires SI(s)
-//@   modifies s.index.$Ein
+//@   modifies s.index.$Ein, s.index.$pending
 //@   ensures @found err == nil ==> found == old(has(s, ikey(bytes(key))))
 //@   ensures @value err == nil && found ==> bytes(value) == old(val(s, ikey(bytes(key))))
 //@   ensures @view sameview(s)
@@ -68,7 +68,7 @@ package store
 //@   requires wfkey(bytes(key))
 //@   requires len(key) + len(value) < (1 << 31)
 //@   requires s.err != types.ErrKeyExists
-//@   modifies s.index.$Ein, s.index.$Eblk, s.index.Primary.$Rin, s.index.Primary.$Rkey, s.index.Primary.$Rval, s.index.Primary.$Rused, s.freelist.$F, s.flushNotice, chan(s.flushNotice)
+//@   modifies s.index.$Ein, s.index.$Eblk, s.index.Primary.$Rin, s.index.Primary.$Rkey, s.index.Primary.$Rval, s.index.Primary.$Rused, s.freelist.$F, s.flushNotice, chan(s.flushNotice), s.index.$pending, s.index.Primary.$pending, s.freelist.$pending
 //@   ensures @exists err == types.ErrKeyExists ==> s.immutable && old(has(s, IK())) && sameview(s) && FL(s) == old(FL(s))
 //@   ensures @put err == nil ==> has(s, IK()) && val(s, IK()) == bytes(value)
 //@   ensures @others forall k Bytes :: k != IK() ==> has(s, k) == old(has(s, k)) && (has(s, k) ==> val(s, k) == old(val(s, k)))
@@ -83,7 +83,7 @@ package store
 //@ func (s *Store) Remove(key []byte) (removed bool, err error)  property C01 C13
 //@   define IK() = ikey(bytes(key))
 //@   requires SI(s)
-//@   modifies s.index.$Ein, s.freelist.$F, s.flushNotice, chan(s.flushNotice)
+//@   modifies s.index.$Ein, s.freelist.$F, s.flushNotice, chan(s.flushNotice), s.index.$pending, s.freelist.$pending
 //@   ensures @result err == nil ==> removed == old(has(s, IK()))
 //@   ensures @gone err == nil ==> !has(s, IK())
 //@   ensures @others forall k Bytes :: k != IK() ==> has(s, k) == old(has(s, k)) && (has(s, k) ==> val(s, k) == old(val(s, k)))
@@ -110,3 +110,12 @@ package store
 
 //@ func (s *Store) Close() (err error)  property C16
 //@   exclusive Close is the shutdown of the store and is not among the concurrent operations C16 lists
+
+// ---------------------------------------------------------------------------
+// Flush ordering D1 (DESIGN.md §4 C03): primary, then index, then freelist. A freed location
+// may only reach the freelist file when the index on disk no longer names it, and the index
+// on disk may only name primary records that are on disk.
+//@ func (s *Store) commit() (work types.Work, err error)  property C03
+//@   modifies s.index.$pending, s.index.Primary.$pending, s.freelist.$pending
+//@   assert at before call freelist.FreeList.Flush#0: @D1-index-before-freelist !s.index.$pending && !s.index.Primary.$pending
+//@   ensures @committed err == nil ==> !s.index.$pending && !s.index.Primary.$pending && !s.freelist.$pending
